@@ -12,6 +12,8 @@ RULE = ("each run = one seed -> (workload tape, schedule/fault tape); the schedu
 
 def P(qr, qw, tr, tw, **kw):
     d = {"quick": dict(runs=qr, wall=qw, **kw), "thorough": dict(runs=tr, wall=tw, **kw)}
+    d["quick"].setdefault("watchdog_s", 90)
+    d["thorough"]["watchdog_s"] = max(240, kw.get("watchdog_s", 0))
     return d
 
 
